@@ -43,8 +43,13 @@ def tree_stamp():
     global _STAMP
     if _STAMP is None:
         import subprocess
-        a = subprocess.run(['git', '-C', REPO, 'rev-parse', 'HEAD'], capture_output=True, text=True).stdout
-        b = subprocess.run(['git', '-C', REPO, 'diff', 'HEAD', '--', '.', ':!_build'], capture_output=True, text=True).stdout
+        def git(*args):
+            r = subprocess.run(['git', '-C', REPO] + list(args), capture_output=True, text=True)
+            if r.returncode != 0:
+                raise Undecided('git %s failed: %s' % (' '.join(args), r.stderr[-300:]))
+            return r.stdout
+        a = git('rev-parse', 'HEAD')
+        b = git('diff', 'HEAD') + git('status', '--porcelain', '--', 'tools', 'csg', 'xtp')
         _STAMP = sha256(a + b)[:12]
     return _STAMP
 
@@ -80,3 +85,23 @@ def execute(exe, args=(), timeout=120, stdin=None):
     env = dict(os.environ, ASAN_OPTIONS='detect_leaks=0:abort_on_error=0', UBSAN_OPTIONS='print_stacktrace=0:halt_on_error=1')
     rc, out, err, w = run([exe] + [str(a) for a in args], timeout=timeout, mem_gb=1 << 20, env=env, stdin=stdin)
     return rc, out, err
+
+
+def libs(targets=('votca_tools', 'votca_csg')):
+    """incremental out-of-tree CMake/Ninja build of the real libraries from /repo's working tree (BUILD_XTP off);
+    returns (link flags, runtime env). Used by replay programs that need more than a few translation units."""
+    d = workdir('native_cmake')
+    if not os.path.exists(os.path.join(d, 'build.ninja')):
+        rc, out, err, w = run(['cmake', '-G', 'Ninja', '-S', REPO, '-B', d, '-DCMAKE_BUILD_TYPE=RelWithDebInfo', '-DBUILD_XTP=OFF', '-DENABLE_TESTING=OFF',
+                               '-DBUILD_CSGAPPS=OFF', '-DCMAKE_DISABLE_FIND_PACKAGE_GROMACS=ON'], timeout=600, mem_gb=64)
+        if rc != 0:
+            raise Undecided('cmake configure failed: ' + (err or out)[-800:])
+    rc, out, err, w = run(['ninja', '-C', d, '-j', '16'] + list(targets), timeout=3000, mem_gb=1 << 10)
+    if rc != 0:
+        raise Undecided('native library build failed: ' + (out or err)[-1500:])
+    ld = [os.path.join(d, 'tools/src/libtools'), os.path.join(d, 'csg/src/libcsg')]
+    flags = []
+    for p in ld:
+        flags += ['-L' + p, '-Wl,-rpath,' + p]
+    flags += ['-l' + t for t in reversed(targets)] + ['-lboost_program_options', '-lboost_filesystem', '-lboost_system']
+    return flags
